@@ -110,8 +110,25 @@ func HashClean() {
 	n := sym.ParamInt("n", 2)
 	w := newHashWorld("x", "y", true)
 	defer w.cleanup()
-	stubs.CPUs = 1 + sym.Choice("cpus", sym.ParamInt("maxcpus", 2))
-	list, kinds := w.pick("entry", n)
+	var list, kinds []string
+	if k := sym.ParamInt("taskset", 0); k > 0 {
+		// Length sweep: how the list length relates to the worker count (the arithmetic of
+		// sharing work out) rather than what the entries are. The worker count is the job's
+		// parameter - the native replay runs under `taskset` with as many CPUs - and the list is
+		// 0..maxlen copies of the first pool entry, a readable regular file. (A seeded change
+		// that gave each worker a contiguous share crashed only for some lengths above the
+		// worker count, from 4 workers on: outside every bound this harness had, DESIGN.md 9.5.)
+		stubs.CPUs = k
+		m := sym.Choice("length", sym.ParamInt("maxlen", 8)+1)
+		for i := 0; i < m; i++ {
+			list = append(list, w.pool[0])
+			kinds = append(kinds, w.kind[0])
+		}
+		sym.Observe("length", m)
+	} else {
+		stubs.CPUs = 1 + sym.Choice("cpus", sym.ParamInt("maxcpus", 2))
+		list, kinds = w.pick("entry", n)
+	}
 	sym.Observe("list", strings.Join(kinds, ","))
 	sym.Observe("cpus", stubs.CPUs)
 	bad := false
